@@ -3,6 +3,7 @@ package checks
 import (
 	"errors"
 	"fmt"
+	"github.com/jrhy/mast"
 
 	"pgregory.net/rapid"
 	"verif/harness/core"
@@ -20,6 +21,11 @@ type C04Case struct {
 	HistB  []core.Op   `json:"hist_b"`
 	PermA  []int       `json:"perm_a"` // order in which the fix-up visits pool keys
 	PermB  []int       `json:"perm_b"`
+	// Disturb > 0: before each history, a tree with THIS other branch factor is given the target entries and persisted
+	// into the same store through the same node cache (byte-identical nodes of a tree with another configuration)
+	Disturb uint `json:"disturb,omitempty"`
+	// DisturbKeys, when set, are the pool keys (value 0) the other tree holds instead of the target entries
+	DisturbKeys []int `json:"disturb_keys,omitempty"`
 }
 
 var c04Weights = core.OpWeights{
@@ -49,6 +55,12 @@ func genC04(t *rapid.T, tier string) C04Case {
 	c.HistB = append(core.GenFillCfg(t, cfg, len(pool)), core.GenProgram(t, core.WithBulk(c04Weights, cfg), maxOps, 2)...)
 	c.PermA = rapid.Permutation(idx(len(pool))).Draw(t, "permA")
 	c.PermB = rapid.Permutation(idx(len(pool))).Draw(t, "permB")
+	if rapid.IntRange(0, 4).Draw(t, "disturb") == 0 && !cfg.IsBig() {
+		c.Disturb = rapid.SampledFrom([]uint{2, 3, 4, 5, 16}).Draw(t, "disturbbf")
+		if c.Disturb == cfg.BF {
+			c.Disturb = cfg.BF + 1
+		}
+	}
 	return c
 }
 
@@ -82,6 +94,32 @@ func c04History(c C04Case, hist []core.Op, perm []int, name string) (c04Result, 
 	if err != nil {
 		res.aborted = true
 		return res, nil
+	}
+	if c.Disturb > 0 {
+		opts := &mast.CreateRemoteOptions{BranchFactor: c.Disturb, NodeFormat: mast.V115Binary}
+		if c.Cfg.Format == ref.FormatV1 {
+			opts.NodeFormat = mast.V1Marshaler
+		}
+		_ = core.Safely("other tree", func() error {
+			om, err := mast.NewRoot(opts).LoadMast(core.Ctx, w.RemoteConfig(w.Store, w.Cache))
+			if err != nil {
+				return err
+			}
+			held := c.Target
+			if c.DisturbKeys != nil {
+				held = nil
+				for _, k := range c.DisturbKeys {
+					held = append(held, [2]int{k, 0})
+				}
+			}
+			for _, kv := range held {
+				if err := om.Insert(core.Ctx, w.Pool[kv[0]%len(w.Pool)], w.Cfg.MakeVal(kv[1])); err != nil {
+					return err
+				}
+			}
+			_, err = om.MakeRoot(core.Ctx)
+			return err
+		})
 	}
 	var perr error
 	m.OnPersist = func(si int, t *core.Tree, sr *core.SavedRoot) error {
@@ -220,8 +258,92 @@ func enumThresholds(shard, nshards int, yield func(C04Case) bool) bool {
 	return true
 }
 
+// enumTwins: small key sets whose tree is byte-for-byte the same at two different branch factors. A tree with branch factor
+// a persists the set through a node cache; a tree with branch factor b then persists the same set into the same store through
+// the same cache, is re-opened, and grows key by key across its thresholds, persisting after every insert. Whatever the cached
+// nodes remember from the first tree must not leak into the second.
+func enumTwins(shard, nshards int, yield func(C04Case) bool) bool {
+	const n = 18 // user keys 0..n-1 with layers = the integer layer rule of key number k+1
+	count := 0
+	for _, pair := range [][2]uint{{2, 3}, {3, 2}, {2, 4}, {4, 2}, {3, 4}, {2, 5}} {
+		a, b := pair[0], pair[1]
+		// keys are plain ints (the layer of an int depends on the branch factor)
+		cfgB := core.Config{BF: b, Format: ref.FormatBinary, Key: core.KInt, Val: core.VInt, Cache: "big", Marshaler: "json", Big: 42} // the ints -14..27 at either branch factor
+		cfgA := cfgB
+		cfgA.BF = a
+		pool := cfgB.Pool()
+		wA, wB := core.NewWorld(cfgA), core.NewWorld(cfgB)
+		found := 0
+		for mask := 1; mask < 1<<16 && found < 5; mask++ {
+			var keys []int
+			for i := 0; i < 16; i++ {
+				if mask&(1<<i) != 0 {
+					keys = append(keys, i+15) // the ints 1..16
+				}
+			}
+			if len(keys) != 4 {
+				continue
+			}
+			model := core.Model{}
+			for _, k := range keys {
+				model[k] = 0
+			}
+			ra, _ := wA.RefRoot(model)
+			rb, _ := wB.RefRoot(model)
+			if ra.Link == "" || ra.Link != rb.Link || ra.Height < 1 || ra.Height != rb.Height {
+				continue
+			}
+			found++
+			count++
+			if count%nshards != shard {
+				continue
+			}
+			hist := []core.Op{}
+			for _, k := range keys {
+				hist = append(hist, core.Op{Kind: core.OpInsert, K: k, V: 0, Raw: true})
+			}
+			hist = append(hist, core.Op{Kind: core.OpPersist}, core.Op{Kind: core.OpReload, N: 0})
+			target := [][2]int{}
+			for _, k := range keys {
+				target = append(target, [2]int{k, 0})
+			}
+			// first only keys that land below the top node, without persisting in between, until well past the next
+			// size threshold; then a persist; then every other key, persisting after each
+			var later []int
+			low := 0
+			for k := 0; k < len(pool); k++ {
+				if _, in := model[k]; in {
+					continue
+				}
+				if cfgB.RefLayer(pool[k]) == 0 && low < int(b*b*b) {
+					hist = append(hist, core.Op{Kind: core.OpInsert, K: k, V: 1, Raw: true})
+					target = append(target, [2]int{k, 1})
+					low++
+					if low == int(b*b)-len(keys)+1 || low == int(b*b*b)-len(keys)+1 {
+						hist = append(hist, core.Op{Kind: core.OpPersist})
+					}
+				} else {
+					later = append(later, k)
+				}
+			}
+			hist = append(hist, core.Op{Kind: core.OpPersist})
+			for _, k := range later {
+				hist = append(hist, core.Op{Kind: core.OpInsert, K: k, V: 1, Raw: true}, core.Op{Kind: core.OpPersist})
+				target = append(target, [2]int{k, 1})
+			}
+			if !yield(C04Case{Cfg: cfgB, Target: target, HistA: hist, HistB: nil, PermA: idx(len(pool)), PermB: idx(len(pool)), Disturb: a, DisturbKeys: keys}) {
+				return false
+			}
+		}
+	}
+	return true
+}
+
 func enumC04(tier string, shard, nshards int, yield func(C04Case) bool) (bool, string) {
 	if !enumThresholds(shard, nshards, yield) {
+		return false, ""
+	}
+	if !enumTwins(shard, nshards, yield) {
 		return false, ""
 	}
 	if tier != "thorough" {
